@@ -12,7 +12,8 @@ Record snap := { s_id : N; s_time : N; s_host : N; s_label : N; s_paths : N; s_t
 
 (* SnapshotGroupCriterion; default: host, label, paths *)
 Record crit := { c_host : bool; c_label : bool; c_paths : bool; c_tags : bool }.
-Definition crit_default := {| c_host := true; c_label := true; c_paths := true; c_tags := false |}.
+Definition crit_default : crit :=
+  let '(h, l, p, t) := crit_default_flags in {| c_host := h; c_label := l; c_paths := p; c_tags := t |}.
 
 (* SnapshotGroup::from_snapshot(me, crit).matches(other) *)
 Definition group_matches (c : crit) (me other : snap) : bool :=
